@@ -98,24 +98,26 @@ def indexOf (c : UInt8) : Bytes → Option Nat
   | [] => none
   | x :: rest => if x == c then some 0 else (indexOf c rest).map (· + 1)
 
+abbrev Vars := List (Bytes × VarVal)
+
 /-- Look a split path up in the variables (`get` after the `[i]` substitution). -/
-def getChunks (c : Ctx) (chunks : List Bytes) : Val :=
+def getChunks (vars : Vars) (chunks : List Bytes) : Val :=
   match chunks with
   | [] => .nil
   | name :: sub =>
-    match getVar c.vars name with
+    match getVar vars name with
     | none => .nil
     | some (.bytes b) => if b.isEmpty then .nil else .bytes b
     | some (.cntr n) => .int n
     | some (.ins v k) => insGet k v sub
 
 /-- `Ctx.replaceQB`: `a[i].b` → `a.<text of i>.b` (only inside counter loops). -/
-def replaceQB (c : Ctx) (path : Bytes) : Option Bytes :=
+def replaceQB (vars : Vars) (path : Bytes) : Option Bytes :=
   match indexOf 91 path, indexOf 93 path with
   | some l, some r =>
     if l < r then
       let inner := (path.drop (l + 1)).take (r - l - 1)
-      let v := getChunks c (splitDots inner)
+      let v := getChunks vars (splitDots inner)
       match v with
       | .nil => some (path.take l ++ [46] ++ path.drop (r + 1))
       | _ => match v.text with
@@ -124,47 +126,54 @@ def replaceQB (c : Ctx) (path : Bytes) : Option Bytes :=
     else some path
   | _, _ => some path
 
-/-- `Ctx.get`: resets `Err`, substitutes `[i]` inside counter loops, resolves the path. -/
+/-- What `Ctx.get` computes: a function of the variables and the square-bracket mode only. -/
+def getCore (vars : Vars) (qb : Bool) (path : Bytes) : Val × Option Err :=
+  if qb then
+    match replaceQB vars path with
+    | some p => (getChunks vars (splitDots p), none)
+    | none => (.nil, some .unknownType)
+  else (getChunks vars (splitDots path), none)
+
+/-- `Ctx.get`: resets `Err` (and `bufX`), substitutes `[i]` inside counter loops, resolves the path. -/
 def Ctx.get (c : Ctx) (path : Bytes) : Val × Ctx :=
-  let c := { c with err := none }
-  if c.chQB then
-    match replaceQB c path with
-    | some p => (getChunks c (splitDots p), c)
-    | none => (.nil, { c with err := some .unknownType })
-  else (getChunks c (splitDots path), c)
+  ((getCore c.vars c.chQB path).1, { c with err := (getCore c.vars c.chQB path).2 })
 
-/-- `Ctx.cmp` (repaired: result buffer and error are reset first; a bytes variable is compared
-    through its own buffer). -/
-def Ctx.cmp (c : Ctx) (path : Bytes) (o : Op) (right : Bytes) : Bool × Ctx :=
-  let c := { c with err := none }
+/-- What `Ctx.cmp` computes (repaired: the result buffer is reset first and a bytes variable is compared
+    through its own buffer): a function of the variables only. -/
+def cmpCore (vars : Vars) (path : Bytes) (o : Op) (right : Bytes) : Bool :=
   match splitDots path with
-  | [] => (false, c)
+  | [] => false
   | name :: sub =>
-    match getVar c.vars name with
-    | none => (false, c)
-    | some (.cntr n) => (((Val.int n).cmpLit o right).getD false, c)
-    | some (.bytes b) => if b.isEmpty then (false, c) else (((Val.bytes b).cmpLit o right).getD false, c)
-    | some (.ins v k) => ((insCompare k v sub o right).getD false, c)
+    match getVar vars name with
+    | none => false
+    | some (.cntr n) => ((Val.int n).cmpLit o right).getD false
+    | some (.bytes b) => if b.isEmpty then false else ((Val.bytes b).cmpLit o right).getD false
+    | some (.ins v k) => (insCompare k v sub o right).getD false
 
-/-- `Ctx.cmpLC`: `len(x) op n` / `cap(x) op n`. -/
-def Ctx.cmpLC (c : Ctx) (path : Bytes) (o : Op) (right : Bytes) : Bool × Ctx :=
-  let c := { c with err := none }
-  let p := if c.chQB then replaceQB c path else some path
-  match p with
-  | none => (false, c)
+/-- `Ctx.cmp`: the error is reset, then the comparison. -/
+def Ctx.cmp (c : Ctx) (path : Bytes) (o : Op) (right : Bytes) : Bool × Ctx :=
+  (cmpCore c.vars path o right, { c with err := none })
+
+/-- What `Ctx.cmpLC` computes: `len(x) op n` / `cap(x) op n`. -/
+def cmpLCCore (vars : Vars) (qb : Bool) (path : Bytes) (o : Op) (right : Bytes) : Bool :=
+  match (if qb then replaceQB vars path else some path) with
+  | none => false
   | some p =>
     match splitDots p with
-    | [] => (false, c)
+    | [] => false
     | name :: sub =>
-      match getVar c.vars name with
+      match getVar vars name with
       | some (.ins v k) => match insLength k v sub with
-        | some n => (((Val.int n).cmpLit o right).getD false, c)
-        | none => (false, c)
+        | some n => ((Val.int n).cmpLit o right).getD false
+        | none => false
       | some (.bytes b) =>
         -- bytes variable: its own buffer (repair); an empty one reads as nil: length 0
-        (((Val.int b.length).cmpLit o right).getD false, c)
-      | some (.cntr _) => (((Val.int 0).cmpLit o right).getD false, c)   -- static inspector on nil: length 0
-      | none => (false, c)
+        ((Val.int b.length).cmpLit o right).getD false
+      | some (.cntr _) => ((Val.int 0).cmpLit o right).getD false   -- static inspector on nil: length 0
+      | none => false
+
+def Ctx.cmpLC (c : Ctx) (path : Bytes) (o : Op) (right : Bytes) : Bool × Ctx :=
+  (cmpLCCore c.vars c.chQB path o right, { c with err := none })
 
 /-! ### Modifiers -/
 
@@ -214,55 +223,69 @@ def escMod (f : Bytes → Bytes) (val : Val) (args : List ArgVal) (skipEmpty : B
   | none => .error .modNoStr
   | some b => if skipEmpty && b.isEmpty then .ok val else .ok (.bytes (iterate f (printIterations args) b))
 
-/-- Built-in modifiers and the harness-registered ones (`v…`). `none` = a modifier the model does not
-    cover (the generators never emit it). -/
-def applyMod (c : Ctx) (id : Bytes) (val : Val) (args : List ArgVal) : Option (Except Err Val × Ctx) :=
+/-- Value computed by a modifier: built-ins and the harness-registered ones (`v…`). `none` = a modifier
+    the model does not cover (the generators never emit it). -/
+def modValue (id : Bytes) (val : Val) (args : List ArgVal) : Option (Except Err Val) :=
   if id == lit "default" || id == lit "def" then
     some (match args with
-      | [] => (.error .modNoArgs, c)
-      | a :: _ => (.ok (if emptyCheck val then a.val else val), c))
+      | [] => .error .modNoArgs
+      | a :: _ => .ok (if emptyCheck val then a.val else val))
   else if id == lit "ifThen" || id == lit "if" then
     some (match args with
-      | [] => (.error .modNoArgs, c)
-      | a :: _ => (.ok (match val with | .bool true => a.val | _ => val), c))
+      | [] => .error .modNoArgs
+      | a :: _ => .ok (match val with | .bool true => a.val | _ => val))
   else if id == lit "ifThenElse" || id == lit "ifel" then
     some (match args with
-      | a :: b :: _ => (.ok (match val with | .bool true => a.val | .bool false => b.val | _ => val), c)
-      | _ => (.error .modPoorArgs, c))
-  else if id == lit "jsonEscape" || id == lit "je" then some (escMod Json.escape val args true, c)
+      | a :: b :: _ => .ok (match val with | .bool true => a.val | .bool false => b.val | _ => val)
+      | _ => .error .modPoorArgs)
+  else if id == lit "jsonEscape" || id == lit "je" then some (escMod Json.escape val args true)
   else if id == lit "jsonQuote" || id == lit "jq" then
     some (match val.text with
-      | none => (.ok (.bytes (iterate Json.quote (printIterations args - 1) [])), c)  -- first pass fails: empty result, later passes quote it
-      | some b => (.ok (.bytes (iterate Json.quote (printIterations args) b)), c))
-  else if id == lit "htmlEscape" || id == lit "he" then some (escMod Html.escape val args true, c)
-  else if id == lit "linkEscape" || id == lit "le" then some (escMod Url.linkEscape val args true, c)
-  else if id == lit "urlEncode" || id == lit "ue" then some (escMod Url.encode val args true, c)
-  else if id == lit "attrEscape" || id == lit "ae" then some (escMod Html.attrEscape val args false, c)
-  else if id == lit "cssEscape" || id == lit "ce" then some (escMod Js.cssEscape val args false, c)
-  else if id == lit "jsEscape" || id == lit "jse" then some (escMod Js.jsEscape val args false, c)
+      -- first pass fails: empty result, later passes quote it
+      | none => .ok (.bytes (iterate Json.quote (printIterations args - 1) []))
+      | some b => .ok (.bytes (iterate Json.quote (printIterations args) b)))
+  else if id == lit "htmlEscape" || id == lit "he" then some (escMod Html.escape val args true)
+  else if id == lit "linkEscape" || id == lit "le" then some (escMod Url.linkEscape val args true)
+  else if id == lit "urlEncode" || id == lit "ue" then some (escMod Url.encode val args true)
+  else if id == lit "attrEscape" || id == lit "ae" then some (escMod Html.attrEscape val args false)
+  else if id == lit "cssEscape" || id == lit "ce" then some (escMod Js.cssEscape val args false)
+  else if id == lit "jsEscape" || id == lit "jse" then some (escMod Js.jsEscape val args false)
   -- harness-registered: vcat(args…) appends "[a1,a2,k=v]" to the text of the value
   else if id == lit "vcat" then
     let showArg : ArgVal → Bytes := fun a => match a with
       | .pos v => (v.text.getD (lit "?"))
       | .kv k v => k ++ [61] ++ (v.text.getD (lit "?"))
-    some (.ok (.bytes ((val.text.getD (lit "?")) ++ [91] ++ (lit ",").intercalate (args.map showArg) ++ [93])), c)
-  -- vdefer(tag): registers a deferred function
-  else if id == lit "vdefer" then
-    match args with
-    | a :: _ => match a.val.text.bind parseIntLit with
-      | some t => some (.ok val, { c with dfr := c.dfr ++ [t.toNat], log := c.log ++ [.deferReg t.toNat] })
-      | none => some (.ok val, c)
-    | [] => some (.ok val, c)
-  -- vacquire(tag): takes an object from the harness pool
-  else if id == lit "vacquire" then
-    match args with
-    | a :: _ => match a.val.text.bind parseIntLit with
-      | some t => some (.ok val, { c with ipv := c.ipv ++ [t.toNat], log := c.log ++ [.acquire t.toNat] })
-      | none => some (.ok val, c)
-    | [] => some (.ok val, c)
+    some (.ok (.bytes ((val.text.getD (lit "?")) ++ [91] ++ (lit ",").intercalate (args.map showArg) ++ [93])))
+  -- vdefer(tag) / vacquire(tag): the value passes through
+  else if id == lit "vdefer" || id == lit "vacquire" then some (.ok val)
   -- vfail(): always fails
-  else if id == lit "vfail" then some (.error .userFail, c)
+  else if id == lit "vfail" then some (.error .userFail)
   else none
+
+/-- Side effect of a modifier on the context: only the harness modifiers `vdefer(tag)` (registers a
+    deferred function) and `vacquire(tag)` (takes an object from the harness pool) have one. -/
+structure ModEff where
+  dfr : List Nat := []
+  ipv : List Nat := []
+  log : List Event := []
+
+def modEffect (id : Bytes) (args : List ArgVal) : ModEff :=
+  let tag : Option Nat := match args with
+    | a :: _ => (a.val.text.bind parseIntLit).map Int.toNat
+    | [] => none
+  match tag with
+  | none => {}
+  | some t =>
+    if id == lit "vdefer" then { dfr := [t], log := [.deferReg t] }
+    else if id == lit "vacquire" then { ipv := [t], log := [.acquire t] }
+    else {}
+
+def Ctx.applyEff (c : Ctx) (e : ModEff) : Ctx :=
+  { c with dfr := c.dfr ++ e.dfr, ipv := c.ipv ++ e.ipv, log := c.log ++ e.log }
+
+/-- One modifier call. -/
+def applyMod (c : Ctx) (id : Bytes) (val : Val) (args : List ArgVal) : Option (Except Err Val × Ctx) :=
+  (modValue id val args).map fun r => (r, c.applyEff (modEffect id args))
 
 /-- Condition helpers: built-in `lenEq0 / lenGt0 / lenGtq0` and the harness-registered
     `veq(a, b)` (texts equal) and `vtrue()`. -/
@@ -434,6 +457,18 @@ def evalPrint (c : Ctx) (path : Bytes) (mods : List Mod) : Ctx × PrintOut :=
       | none => (c2, .stop (some .unknownType))
       | some t => if t.isEmpty then (c2, .stop none) else (c2, .text t)
 
+/-- Emptiness of the source of a ctx assignment: nil, "", and (after the repair) empty strings / bytes
+    behind pointers. -/
+def srcEmpty (raw : Val) : Bool :=
+  raw.isNilOrEmptyStr || (match raw with | .bytes b => b.isEmpty | .str s => s.isEmpty | _ => false)
+
+/-- The assignment itself: byte strings are copied into a bytes variable, anything else is stored with
+    the inspector. -/
+def ctxAssign (c : Ctx) (var : Bytes) (raw : Val) (kind : InsKind) : Ctx :=
+  match raw with
+  | .bytes b => if b.isEmpty then c.set var raw kind else c.setBytes var b
+  | _ => c.set var raw kind
+
 /-- `typeCtx`. -/
 def ctxNode (c : Ctx) (cs : CtxSpec) : Ctx × Option Err :=
   if cs.srcStatic then (c.setBytes cs.var cs.src, none) else
@@ -450,13 +485,9 @@ def ctxNode (c : Ctx) (cs : CtxSpec) : Ctx × Option Err :=
     match c2.err with
     | some e => (c2, some e)
     | none =>
-      -- nil, "", and (after the repair) empty strings / bytes behind pointers
-      let empty := raw.isNilOrEmptyStr || (match raw with | .bytes b => b.isEmpty | .str s => s.isEmpty | _ => false)
+      let empty := srcEmpty raw
       let c3 := if cs.ok.isEmpty then c2 else c2.setStatic cs.ok (.bool (!empty))
-      if empty then (c3, none) else
-      match raw with
-      | .bytes b => if b.isEmpty then (c3.set cs.var raw kind, none) else (c3.setBytes cs.var b, none)
-      | _ => (c3.set cs.var raw kind, none)
+      if empty then (c3, none) else (ctxAssign c3 cs.var raw kind, none)
 
 /-- Two's-complement wrap-around of Go's `int` arithmetic. -/
 def wrap64 (x : Int) : Int := (x + 9223372036854775808) % 18446744073709551616 - 9223372036854775808
@@ -554,40 +585,62 @@ def loopParts (child : List Node) : List Node × Option (List Node) :=
     | _ => none
   (body, els)
 
+/-- What happens after the body of one loop iteration. -/
+inductive IterOut
+  | abort (s : St)     -- a real error: the loop function returns early, `ctx.Err` holds the error
+  | stop (s : St)      -- a pending break depth was consumed: no further iteration
+  | next (s : St)      -- go on with the next iteration
+  deriving Inhabited
+
+/-- Decide from the result of the body (both loop kinds): break / continue sentinels are not errors;
+    any other error aborts; a pending depth (set by break / lazybreak or left over by a child loop) ends
+    this loop and is decremented — this loop is one of the loops to end. -/
+def iterAfterBody (rb : Res) : IterOut :=
+  let abortErr : Option Err := match rb.err with
+    | some e => if isSentinel e then none else some e
+    | none => none
+  match abortErr with
+  | some e => .abort { rb.st with c := { rb.st.c with err := some e } }
+  | none =>
+    if rb.st.c.brkD > 0 then .stop { rb.st with c := { rb.st.c with brkD := rb.st.c.brkD - 1 } }
+    else .next rb.st
+
+/-- The separator write before every iteration but the first. -/
+def sepWrite (n : Nat) (sep : Bytes) (s : St) : Res :=
+  if n > 0 && !sep.isEmpty then s.write sep else ok s
+
+/-- Next counter value. -/
+def stepVal (o : Op) (v : Int) : Int := if o == .inc then v + 1 else v - 1
+
 /-- The `for { … }` of `Ctx.cloop`, with the body given as a function. `abort` = the function
     returned early with `ctx.Err` set. The loop variable references the counter cell, so on every
     exit it reads the current value. -/
 def cloopLoop (run : St → Res) (ls : CLoopSpec) : Nat → Int → Int → Nat → St → LoopRes
   | 0, _, _, n, s => ⟨n, { s with c := { s.c with err := some .outOfFuel } }, true⟩
   | f+1, v, lim, n, s =>
-    let exit := fun (s : St) (v : Int) => ({ s with c := s.c.setStatic ls.cnt (.int v) } : St)
     match loopAllows ls.condOp v lim with
-    | none => ⟨n, exit { s with c := { s.c with err := some .wrongLoopCond } } v, false⟩
-    | some false => ⟨n, exit s v, false⟩
+    | none => ⟨n, { s with c := { s.c.setStatic ls.cnt (.int v) with err := some .wrongLoopCond } }, false⟩
+    | some false => ⟨n, { s with c := s.c.setStatic ls.cnt (.int v) }, false⟩
     | some true =>
       let s1 : St := { s with c := s.c.setStatic ls.cnt (.int v) }
-      -- separator
-      let rs := if n > 0 && !ls.sep.isEmpty then s1.write ls.sep else ok s1
+      let rs := sepWrite n ls.sep s1
       match rs.err with
       | some e => ⟨n, { rs.st with c := { rs.st.c with err := some e } }, true⟩
       | none =>
+        -- body with the square-bracket check on; the previous mode is restored afterwards (repair)
         let qb := rs.st.c.chQB
-        let rb := run { rs.st with c := { rs.st.c with chQB := true } }
-        let sb : St := { rb.st with c := { rb.st.c with chQB := qb } }
-        let abortErr : Option Err := match rb.err with
-          | some e => if isSentinel e then none else some e
-          | none => none
-        match abortErr with
-        | some e => ⟨n+1, { sb with c := { sb.c with err := some e } }, true⟩
-        | none =>
-          match ls.cntOp with
-          | .inc | .dec =>
-            let v' := if ls.cntOp == .inc then v + 1 else v - 1
-            let sv : St := { sb with c := sb.c.setStatic ls.cnt (.int v') }
-            -- break / lazybreak (or a child loop) left the number of loops to end: this is one of them
-            if sb.c.brkD > 0 then ⟨n+1, { sv with c := { sv.c with brkD := sb.c.brkD - 1 } }, false⟩
-            else cloopLoop run ls f v' lim (n+1) sv
-          | _ => ⟨n+1, { sb with c := { sb.c with err := some .wrongLoopOp } }, true⟩
+        let rb0 := run { rs.st with c := { rs.st.c with chQB := true } }
+        let rb : Res := { rb0 with st := { rb0.st with c := { rb0.st.c with chQB := qb } } }
+        if ls.cntOp == .inc || ls.cntOp == .dec then
+          let v' := stepVal ls.cntOp v
+          match iterAfterBody rb with
+          | .abort st => ⟨n+1, st, true⟩
+          | .stop st => ⟨n+1, { st with c := st.c.setStatic ls.cnt (.int v') }, false⟩
+          | .next st => cloopLoop run ls f v' lim (n+1) { st with c := st.c.setStatic ls.cnt (.int v') }
+        else
+          match iterAfterBody rb with
+          | .abort st => ⟨n+1, st, true⟩
+          | _ => ⟨n+1, { rb.st with c := { rb.st.c with err := some .wrongLoopOp } }, true⟩
 
 /-- The for-else branch: `if ctx.Err = tpl.writeNode(w, ch, ctx); ctx.Err != nil { break }` — the result
     of every child is ASSIGNED to `ctx.Err`, so a successful non-empty branch clears a stale error. -/
@@ -597,45 +650,54 @@ def elseRun (run : St → Res) (nonEmpty : Bool) (s : St) : Res :=
   | some e => ok { x.st with c := { x.st.c with err := some e } }
   | none => ok (if nonEmpty then { x.st with c := { x.st.c with err := none } } else x.st)
 
+/-- Both bounds of a counter loop (`cloopRange` twice); `none` = one of them failed (`ctx.Err` is set). -/
+def loopBounds (c : Ctx) (ls : CLoopSpec) : Ctx × Option (Int × Int) :=
+  match (cloopRange c ls.cntStatic ls.cntInit).1 with
+  | .error _ => ((cloopRange c ls.cntStatic ls.cntInit).2, none)
+  | .ok cnt =>
+    let c1 := (cloopRange c ls.cntStatic ls.cntInit).2
+    match (cloopRange c1 ls.limStatic ls.lim).1 with
+    | .error _ => ((cloopRange c1 ls.limStatic ls.lim).2, none)
+    | .ok lim => ((cloopRange c1 ls.limStatic ls.lim).2, some (cnt, lim))
+
+/-- After a loop: an aborted loop returns at once; otherwise the else-branch runs iff there was no iteration. -/
+def afterLoop (runElse : Option (St → Res)) (r : LoopRes) (sElse : St) : Res :=
+  if r.abort then ok r.st else
+  if r.n == 0 then
+    match runElse with
+    | some re => re sElse
+    | none => ok sElse
+  else ok sElse
+
+/-- `Ctx.cloop` once the bounds are known. -/
+def cloopAfter (run : St → Res) (runElse : Option (St → Res)) (fuel : Nat) (ls : CLoopSpec)
+    (b : Option (Int × Int)) (s : St) : Res :=
+  match b with
+  | none => ok s
+  | some (cnt, lim) =>
+    let r := cloopLoop run ls fuel cnt lim 0 s
+    afterLoop runElse r r.st
+
 /-- `Ctx.cloop`: bounds, the loop, the else-branch. Errors are reported through `ctx.Err`. -/
 def cloopWith (run : St → Res) (runElse : Option (St → Res)) (fuel : Nat) (ls : CLoopSpec) (s : St) : Res :=
-  let (cnt, c1) := cloopRange s.c ls.cntStatic ls.cntInit
-  match cnt with
-  | .error _ => ok { s with c := c1 }
-  | .ok cnt =>
-    let (lim, c2) := cloopRange c1 ls.limStatic ls.lim
-    match lim with
-    | .error _ => ok { s with c := c2 }
-    | .ok lim =>
-      let r := cloopLoop run ls fuel cnt lim 0 { s with c := c2 }
-      if r.abort then ok r.st else
-      if r.n == 0 then
-        match runElse with
-        | some re => re r.st
-        | none => ok r.st
-      else ok r.st
+  cloopAfter run runElse fuel ls (loopBounds s.c ls).2 { s with c := (loopBounds s.c ls).1 }
+
+/-- State in which the body of a range-loop iteration starts: `SetKey` (if required) and `SetVal`. -/
+def rIterStart (ls : RLoopSpec) (k : Bytes) (v : Val) (ik : InsKind) (s : St) : St :=
+  { s with c := (if ls.key.isEmpty then s.c else s.c.set ls.key (.bytes k) .static).set ls.val v ik }
 
 /-- `RangeLoop.Iterate` driven by `Inspector.Loop` over the elements. -/
 def rloopLoop (run : St → Res) (ls : RLoopSpec) : List (Bytes × Val × InsKind) → Nat → St → LoopRes
   | [], n, s => ⟨n, s, false⟩
   | (k, v, ik) :: rest, n, s =>
-    -- SetKey (if required) and SetVal
-    let c1 := if ls.key.isEmpty then s.c else s.c.set ls.key (.bytes k) .static
-    let s1 : St := { s with c := c1.set ls.val v ik }
-    let rs := if n > 0 && !ls.sep.isEmpty then s1.write ls.sep else ok s1
+    let rs := sepWrite n ls.sep (rIterStart ls k v ik s)
     match rs.err with
     | some e => ⟨n+1, { rs.st with c := { rs.st.c with err := some e } }, true⟩
     | none =>
-      let rb := run rs.st
-      let sb : St := rb.st
-      let abortErr : Option Err := match rb.err with
-        | some e => if isSentinel e then none else some e
-        | none => none
-      match abortErr with
-      | some e => ⟨n+1, { sb with c := { sb.c with err := some e } }, true⟩
-      | none =>
-        if sb.c.brkD > 0 then ⟨n+1, { sb with c := { sb.c with brkD := sb.c.brkD - 1 } }, false⟩
-        else rloopLoop run ls rest (n+1) sb
+      match iterAfterBody (run rs.st) with
+      | .abort st => ⟨n+1, st, true⟩
+      | .stop st => ⟨n+1, st, false⟩
+      | .next st => rloopLoop run ls rest (n+1) st
 
 /-- What `Inspector.Loop` iterates over for a variable. -/
 def loopItems (vv : VarVal) (sub : List Bytes) : List (Bytes × Val × InsKind) :=
@@ -654,13 +716,7 @@ def rloopWith (run : St → Res) (runElse : Option (St → Res)) (ls : RLoopSpec
       let r := rloopLoop run ls (loopItems vv sub) 0 s
       -- `ctx.Err = v.ins.Loop(...)`: the inspector's result (nil) replaces whatever was there;
       -- an error caught inside an iteration (rl.err) is put back and the function returns
-      if r.abort then ok r.st else
-      let s2 : St := { r.st with c := { r.st.c with err := none } }
-      if r.n == 0 then
-        match runElse with
-        | some re => re s2
-        | none => ok s2
-      else ok s2
+      afterLoop runElse r { r.st with c := { r.st.c with err := none } }
 
 /-- `writeNode typeLoopCount / typeLoopRange`: the break depth pending for the parent loops survives
     the loop; `ctx.Err` is turned into the returned error. -/
